@@ -5,9 +5,9 @@ CONSTANTS
   MaxOut = 2
   Runs = 3
   FirstVisitCounts = FALSE
-  WaitForVisited = TRUE
-  UnvisitedIsTop = FALSE
-  RootsAreEntries = TRUE
-INVARIANTS SweepBound FixedPoint Stable AllVisited
+  WaitForVisited = FALSE
+  UnvisitedIsTop = TRUE
+  RootsAreEntries = FALSE
+INVARIANTS FixedPoint Stable AllVisited
 PROPERTY Terminates
 CHECK_DEADLOCK FALSE
